@@ -1,6 +1,7 @@
 // Instantiation driver for the amc:: memory algorithms (parsed only).
 #pragma once
 
+#include <amc/allocator.hpp>
 #include <amc/memory.hpp>
 
 #include <iterator>
@@ -29,6 +30,14 @@ void use_memory(E *a, E *b, const E *c, int n) {
   sink(amc::uninitialized_relocate_n(a, n, b));
   sink(amc::relocate_at(a, b));
   (void)c;
+}
+
+// amc::allocator used directly (reallocate is part of its public interface)
+template <class E>
+void use_allocator(amc::allocator<E> &a, int n) {
+  E *p = a.allocate(n);
+  p = a.reallocate(p, n, 2 * n, n);
+  a.deallocate(p, 2 * n);
 }
 
 template <class E>
